@@ -27,8 +27,8 @@ mk MC_LouvainS_t_smp4.cfg   4 FALSE smp 3 4 VS  FALSE
 mk MC_LouvainS_t_fneg4.cfg  4 TRUE  neg 1 1 VS  FALSE
 mk MC_LouvainS_t_pos4.cfg   4 FALSE pos 5 4 VS  FALSE
 mk MC_LouvainS_t_fsta4.cfg  4 TRUE  sta 3 4 VS  FALSE
-mk Gen_LouvainS_sta5.cfg    5 FALSE sta 1 1 VS  TRUE
+mk Gen_LouvainS_sta4.cfg    4 FALSE sta 1 1 VS  TRUE
 mk Gen_LouvainS_gja4.cfg    4 FALSE gja 5 4 VS2 TRUE
 mk Gen_LouvainS_fsmp4.cfg   4 TRUE  smp 3 4 VS2 TRUE
-mk Gen_LouvainS_fneg5.cfg   5 TRUE  neg 1 1 VS  TRUE
+mk Gen_LouvainS_fneg4.cfg   4 TRUE  neg 1 1 VS  TRUE
 mk Gen_LouvainS_pos4.cfg    4 FALSE pos 1 1 VS2 TRUE
